@@ -151,6 +151,31 @@ def _rec_unit(args):
     return cnt, classes, fails
 
 
+def _rec_out_unit(args):
+    """recovery from (r, s) with s outside [1, n-1]: only keys under which the signature verifies (none) may come back;
+    refusing with an exception returns no key either"""
+    ck, z, r, outs = args
+    p, a, b, G, n = CURVES[ck]
+    g = _gen(ck)
+    fails, cnt, classes = [], 0, set()
+    for s, may in outs:
+        may = {tuple(q) for q in may}
+        for par in (None, 0, 1):
+            got = drv.call(lambda: g.possible_public_pairs_for_signature(z, (r, s), par))
+            cnt += 1
+            classes.add((ck, "rec-out", "s<1" if s < 1 else "s>=n", par))
+            if isinstance(got, str):
+                continue
+            gs = {tuple(q) for q in drv.pts(got, p)}
+            key = "C01|recover|%s|parity=%s|returned_nonverifying_key" % ("s<1" if s < 1 else "s>=n", "any" if par is None else "given")
+            if not gs <= may and key not in {f[0] for f in fails}:
+                fails.append((key,
+                              "possible_public_pairs_for_signature(z=%d, (r=%d, s=%d), parity=%s) on %s: no key verifies a signature with s outside [1, n-1], got %s" % (
+                                  z, r, s, par, ck, drv.pts(got, p)),
+                              {"curve": ck, "z": z, "r": r, "s": s, "parity": par, "must": [], "may": sorted(may)}))
+    return cnt, classes, fails
+
+
 def _rfc_toy_unit(args):
     """default-nonce signing on the toy curves: nonce from the RFC6979 term, signature from the sign table"""
     rec, cks = args
@@ -384,9 +409,10 @@ def run(ctx):
             units += [("ver", (ck, row["Q"], row["z"], row["acc"], q)) for row in _T[ck]["ver"]]
             units += [("sign", (ck, d, recs)) for d, recs in sorted(_T[ck]["signrecs"].items())]
             units += [("rec", (ck, row["z"], row["r"], row["rows"])) for row in _T[ck]["rec"]]
+            units += [("recout", (ck, row["z"], row["r"], row["outs"])) for row in _T[ck]["rec"]]
         random.Random(ctx.seed).shuffle(units)
         res = pmap(_dispatch, units, chunk=4)
-        for kind in ("ver", "sign", "rec"):
+        for kind in ("ver", "sign", "rec", "recout"):
             sel = [o for (k, _), o in zip(units, res) if k == kind]
             tot = _report(ctx, kind, sel)
             ctx.log("toy %s table: %d calls on pycoin (%d rows)" % (kind, tot, len(sel)))
@@ -434,7 +460,7 @@ def run(ctx):
 
 def _dispatch(u):
     kind, args = u
-    return {"ver": _ver_unit, "sign": _sign_unit, "rec": _rec_unit}[kind](args)
+    return {"ver": _ver_unit, "sign": _sign_unit, "rec": _rec_unit, "recout": _rec_out_unit}[kind](args)
 
 
 # ----------------------------------------------------------------------------- production curves
